@@ -96,18 +96,14 @@ Definition sa_remove_flag (desc flag : N) : N := N.ldiff desc (N.shiftl flag 44)
 Definition sa_has_flag (desc flag : N) : bool := negb (N.land (N.shiftr desc 44) flag =? 0).
 Definition sa_put_flag (desc flag : N) (enable : bool) : N := if enable then sa_set_flag desc flag else sa_remove_flag desc flag.
 
-(* SetAttributeOffset: the mask is computed in type int:  15 << (4*attr + 4).
-   attr <= 5: positive int.  attr = 6: 0xF0000000, converted to int (negative) and sign-extended to
-   64 bits by the static_cast.  attr >= 7: shift count >= 32, undefined behaviour -> Fault. *)
+(* SetAttributeOffset (VertexData.hpp:83-89): desc = (offset << (4*attr+2)) | (desc & ~(uint64_t(15) << (4*attr+4))),
+   all in 64 bits: exactly the attribute's own nibble is cleared.  (Before the repair of
+   C13-eyedata-desc-shift the mask was the int expression 15 << (4*attr+4): undefined for attr >= 7, sign-extended
+   for attr = 6.)  The result type stays [res] although no branch faults any more. *)
 Definition sa_set_attr_offset (desc attr offset : N) : res N :=
   if attr =? 0 then Ok desc
-  else
-    let sh := 4 * attr + 4 in
-    if 32 <=? sh then Fault
-    else
-      let m32 := sa_wrap32 (N.shiftl 15 sh) in
-      let m64 := if 2147483648 <=? m32 then m32 + (sa_two64 - 4294967296) else m32 in
-      Ok (N.lor (N.shiftl offset (4 * attr + 2) mod sa_two64) (N.ldiff desc m64)).
+  else Ok (N.lor (N.shiftl offset (4 * attr + 2) mod sa_two64)
+                 (N.ldiff desc (N.shiftl 15 (4 * attr + 4) mod sa_two64))).
 
 Definition sa_desc_main_size (desc : N) : N := (N.shiftr (N.land desc 0xFF00) 8) * 4.   (* GetVertexMainSize *)
 
@@ -445,7 +441,7 @@ Section Model.
       bind (sa_upd1 (fun i _ => fst (f i)) 0 (N.to_nat (sa_g_nv g1)) (sa_g_tans g1)) (fun t =>
       Ok (sa_g_with_tb g1 t b))).
 
-  (* NiGeometryData::Create, Geometry.cpp:196-240; the uv part (215-229) and the normal part (231-239) *)
+  (* NiGeometryData::Create, Geometry.cpp:196-243; the uv part and the normal part *)
   Definition sa_g_create_uvs (g1 : sa_geom) (nv : N) (uvs : option (list sa_v2)) : res sa_geom :=
     match uvs with
     | Some u =>
@@ -474,8 +470,10 @@ Section Model.
   Definition sa_g_create_data (g : sa_geom) (verts : list sa_v3) (uvs : option (list sa_v2)) (norms : option (list sa_v3)) : res sa_geom :=
     let nv := if sa_u16max <? vlen verts then sa_u16max else vlen verts in
     bind (sa_upd2 (fun _ x => x) (N.to_nat nv) (vresize sa_v3z (sa_g_verts g) nv) verts) (fun vs =>
-    let g1 := sa_mkG nv (sa_g_hv g) (sa_g_hn g) (sa_g_hc g) (sa_bsphere vs) vs (sa_g_norms g) (sa_g_tans g) (sa_g_bits g) (sa_g_cols g)
-                  (sa_g_df g) (sa_g_uvs g) (sa_g_nt g) (sa_g_ntp g) (sa_g_ht g) (sa_g_tris g) (sa_g_xtan g) in
+    (* SetVertexColors(hasVertexColors): the colour array follows the new vertex count *)
+    let g1 := sa_g_set_colors
+                (sa_mkG nv (sa_g_hv g) (sa_g_hn g) (sa_g_hc g) (sa_bsphere vs) vs (sa_g_norms g) (sa_g_tans g) (sa_g_bits g) (sa_g_cols g)
+                  (sa_g_df g) (sa_g_uvs g) (sa_g_nt g) (sa_g_ntp g) (sa_g_ht g) (sa_g_tris g) (sa_g_xtan g)) (sa_g_hc g) in
     bind (sa_g_create_uvs g1 nv uvs) (fun g3 => sa_g_create_norms g3 nv norms)).
 
   (* NiTriBasedGeomData::Create + NiTriShapeData::Create, Geometry.cpp:1868-1943 *)
